@@ -7,7 +7,12 @@ replication message can overtake an earlier one.  ``mc.choice.explore`` enumerat
 assignments up to a deviation bound (full product where the space is small) for every
 enumerated input (write sequences with repeated keys x issue gaps) and every configuration
 (primary-backup: mode x #backups; chain: length x CRAQ; multi-leader: #leaders x writer
-placement, anti-entropy peer picks owned through ``random.choice``).
+placement x EVERY conflict resolver the library ships (LastWriterWins, VectorClockMerge with and
+without merge_fn, CustomResolver) x write instants including exact ties between different leaders
+(distinct and equal values), anti-entropy peer picks owned through ``random.choice``).
+An auxiliary driver (``resolvers``) folds all pairs/triples of concurrent versions through each
+resolver in every arrival order — argument-order independence is a lemma of the convergence
+clause; the deciding check stays the replica-level one.
 
 Oracle clauses (each tied to a phrase of the statement):
 
@@ -48,7 +53,8 @@ from happysimulator.components.network.link import NetworkLink  # noqa: E402
 from happysimulator.components.network.network import Network  # noqa: E402
 from happysimulator.components.replication.chain_replication import build_chain  # noqa: E402
 from happysimulator.components.replication.conflict_resolver import (  # noqa: E402
-    LastWriterWins, VectorClockMerge)
+    CustomResolver, LastWriterWins, VectorClockMerge, VersionedValue)
+from happysimulator.core.logical_clocks import HLCTimestamp  # noqa: E402
 from happysimulator.components.replication.multi_leader import LeaderNode  # noqa: E402
 from happysimulator.components.replication.primary_backup import (  # noqa: E402
     BackupNode, PrimaryNode, ReplicationMode)
@@ -492,6 +498,22 @@ AE_GAP = 40          # ticks between two harness-fired anti-entropy rounds (> an
 AE_TYPES = ("AntiEntropyRequest", "AntiEntropyResponse")
 
 
+def _highest_value(versions):
+    """User-supplied policy for the resolvers that take one: the version with the highest value wins, ties by
+    writer id.  Values grow in issue order, so this is a total order that extends causality and is symmetric in
+    its arguments — the library, not the policy, is responsible for convergence."""
+    return max(versions, key=lambda v: (v.value, v.writer_id))
+
+
+# every conflict resolver the library ships, in every way it can be constructed
+RESOLVERS = {
+    "lww": lambda: LastWriterWins(),
+    "vcmerge": lambda: VectorClockMerge(),                                            # timestamp fallback
+    "vcmerge-fn": lambda: VectorClockMerge(merge_fn=lambda key, a, b: _highest_value([a, b])),
+    "custom": lambda: CustomResolver(lambda key, versions: _highest_value(versions)),
+}
+
+
 def ml_quiet(cfg, inp):
     W, _R = PROFILES[cfg["prof"]]
     last = max(t for (t, _l, _k, _v) in inp["writes"])
@@ -510,7 +532,7 @@ def run_ml(chooser, cfg, inp):
     tq = w.fixed_after = ml_quiet(cfg, inp)
     net = Network(name="net")
     n = cfg["n"]
-    mk = {"lww": LastWriterWins, "vcmerge": VectorClockMerge}[cfg["resolver"]]
+    mk = RESOLVERS[cfg["resolver"]]
     leaders = [LeaderNode(f"L{i}", store=w.store(f"L{i}", cfg["prof"]), network=net, conflict_resolver=mk(),
                           anti_entropy_interval=1.0e6) for i in range(n)]
     for ld in leaders:
@@ -680,6 +702,9 @@ def leader_patterns(n_writes, n_leaders):
 
 
 def ml_inputs(sizes, gaps, n_leaders, early=False):
+    """{writes: [(tick, leader, key, value)], early}: every writer placement up to renaming x key pattern with a
+    repeated key x gap vector (gap 0 = the same instant); values are 1..n in issue order, plus — whenever two
+    different leaders write one key at exactly the same instant — the variant where those two write EQUAL values."""
     res = []
     for n in sizes:
         for lp in leader_patterns(n, n_leaders):
@@ -692,10 +717,19 @@ def ml_inputs(sizes, gaps, n_leaders, early=False):
                         if i:
                             t += gv[i - 1]
                         ws.append((t, lp[i], pat[i], i + 1))
-                    res.append({"writes": ws, "early": None})
-                    if early and n >= 2:
-                        for li in range(n_leaders):
-                            res.append({"writes": ws, "early": (li, ws[1][0] + 1)})
+                    variants = [ws]
+                    for i in range(n):
+                        for j in range(i + 1, n):
+                            if ws[i][0] == ws[j][0] and ws[i][2] == ws[j][2] and ws[i][1] != ws[j][1]:
+                                eq = list(ws)
+                                eq[j] = (ws[j][0], ws[j][1], ws[j][2], ws[i][3])
+                                if eq not in variants:
+                                    variants.append(eq)
+                    for v in variants:
+                        res.append({"writes": v, "early": None})
+                        if early and n >= 2:
+                            for li in range(n_leaders):
+                                res.append({"writes": v, "early": (li, v[1][0] + 1)})
     return res
 
 
@@ -879,36 +913,52 @@ def plan(tier):
                                                 "bound 5 (<9 points), 4 (9-14 points), 3 (15 points)"))}, jobs)
 
     # -- multi-leader -----------------------------------------------------------
+    # every shipped resolver; 'lww' (the default) gets the widest exploration, the others the same inputs (all of
+    # which include exact ties between different leaders) under a smaller deviation bound in the quick tier
     jobs = []
     for n in (2, 3):
         for prof in ("instant", "slow"):
-            for res in (("lww",) if q else ("lww", "vcmerge")):
+            for res in RESOLVERS:
+                main_res = res == "lww"
                 cfg = {"n": n, "prof": prof, "resolver": res}
                 if q and n == 2:
-                    inps = ml_inputs((2,), G, 2, early=True) + ml_inputs((3,), G, 2)
+                    inps = ml_inputs((2,), G, 2, early=main_res) + ml_inputs((3,), G, 2)
                 elif q:
                     inps = ml_inputs((2,), G, 3) + [
                         x for x in ml_inputs((3,), (0, 1), 3)
                         if len({l for (_t, l, _k, _v) in x["writes"]}) == 3
                         and len({k for (_t, _l, k, _v) in x["writes"]}) == 1]
                 elif n == 2:
-                    inps = ml_inputs((2, 3), G, 2, early=True)
+                    inps = ml_inputs((2, 3), G, 2, early=main_res or res == "vcmerge")
                 else:
-                    inps = ml_inputs((2,), G, 3, early=True) + ml_inputs((3,), (0, 1), 3)
+                    inps = ml_inputs((2,), G, 3, early=main_res) + ml_inputs((3,), (0, 1), 3)
                 for inp in inps:
-                    jobs.append(("multileader", "ml", cfg, inp,
-                                 B if (q or n == 2) else (4 if len(inp["writes"]) == 2 else 3)))
-    plans["multileader"] = ({"leaders": [2, 3], "resolvers": ["lww"] if q else ["lww", "vcmerge"],
+                    if q:
+                        b = B if main_res else 2
+                    elif n == 2:
+                        b = B if (main_res or res == "vcmerge") else 3
+                    else:
+                        b = (4 if len(inp["writes"]) == 2 else 3) if main_res else (3 if len(inp["writes"]) == 2 else 2)
+                    jobs.append(("multileader", "ml", cfg, inp, b))
+    plans["multileader"] = ({"leaders": [2, 3],
+                             "resolvers": {"lww": "LastWriterWins()", "vcmerge": "VectorClockMerge() (timestamp fallback)",
+                                           "vcmerge-fn": "VectorClockMerge(merge_fn=highest value, ties by writer id)",
+                                           "custom": "CustomResolver(highest value, ties by writer id)"},
                              "store_profiles(W,R ticks)": PROFILES,
                              "writes": "2-3 writes, some key written twice, every placement of writers on leaders up to "
                                        "renaming" + (" (3 leaders: 2 writes, plus 3 concurrent writers on one key with gaps "
-                                                     "{0,1})" if q else " (3 leaders x 3 writes: gaps {0,1})"),
+                                                     "{0,1})" if q else " (3 leaders x 3 writes: gaps {0,1})") +
+                                       "; gap 0 = exact tie of write instants between different leaders, with distinct AND "
+                                       "with equal values",
                              "issue_gaps_ticks": list(G), "delay_menu_ticks": list(MENU),
                              "anti_entropy": f"fired by the harness at every leader in turn after the last possible "
                                              f"delivery, {AE_GAP} ticks apart (1 round for 2 leaders, 2 for 3); peer = "
                                              f"random.choice owned by the explorer; optional early round during the writes "
-                                             f"with explored message delays" + (" (2 leaders x 2 writes)" if q else ""),
-                             "delay_assignments": f"deviation bound {B}" + ("" if q else " (3 leaders: 4 for 2 writes, 3 for 3 writes)") +
+                                             f"with explored message delays" + (" (lww, 2 leaders x 2 writes)" if q else
+                                                                                " (lww; vcmerge for 2 leaders)"),
+                             "delay_assignments": ("deviation bound 3 for lww, 2 for the other resolvers" if q else
+                                                   "lww: deviation bound 5 (3 leaders: 4 for 2 writes, 3 for 3 writes); "
+                                                   "vcmerge: 5 (3 leaders: 3 / 2); vcmerge-fn, custom: 3 (3 leaders: 3 / 2)") +
                                                   " over message delays and anti-entropy peer picks (= full product when "
                                                   "there are no more choice points than that)"}, jobs)
     return plans
@@ -993,6 +1043,83 @@ def run_rstore(run, tier, seed):
     d.wall_s = time.time() - t0
 
 
+# ---------------------------------------------------------------------------
+# auxiliary lemma of the convergence clause: the shipped resolvers do not depend on argument order
+# ---------------------------------------------------------------------------
+def _mk_version(spec):
+    (writer, ts, count, value) = spec
+    tstamp = HLCTimestamp(physical_ns=ts[1], logical=ts[2], node_id=writer) if isinstance(ts, (tuple, list)) else float(ts)
+    vc = {w_: 0 for w_ in "ABC"}
+    vc[writer] = count
+    return VersionedValue(value=value, timestamp=tstamp, writer_id=writer, vector_clock=vc)
+
+
+def resolver_cases(kind):
+    """All pairs / triples of pairwise CONCURRENT versions (one per writer A, B(, C); the only thing a leader ever
+    hands to its resolver) over timestamps {1, 2} (float) or HLC (physical {1,2} x logical {0,1}), own vector-clock
+    entry {1, 2}, value {1, 2}."""
+    if kind == "float":
+        stamps = [1.0, 2.0]
+    else:
+        stamps = [("hlc", p_, l_) for p_ in (1, 2) for l_ in (0, 1)]
+    per = lambda wr: [(wr, ts, c, v) for ts in stamps for c in (1, 2) for v in (1, 2)]  # noqa: E731
+    for u in per("A"):
+        for v in per("B"):
+            yield (u, v)
+    for u in per("A"):
+        for v in per("B"):
+            for x in per("C"):
+                yield (u, v, x)
+
+
+def check_resolver_case(res_name, case):
+    """Fold the versions through resolve(key, [held, incoming]) in every arrival order, as a leader does;
+    returns (set of winners, calls)."""
+    winners, calls = set(), 0
+    vs = [_mk_version(c) for c in case]
+    for perm in itertools.permutations(range(len(vs))):
+        r = RESOLVERS[res_name]()
+        held = vs[perm[0]]
+        for i in perm[1:]:
+            held = r.resolve("k", [held, vs[i]])
+            calls += 1
+        winners.add((held.value, repr(held.timestamp), held.writer_id))
+    return winners, calls
+
+
+def run_resolvers(run):
+    t0 = time.time()
+    d = run.driver("resolvers", {"resolvers": list(RESOLVERS), "versions": "pairs and triples of pairwise concurrent "
+                                 "versions, one per writer", "timestamps": "float {1,2}; HLC physical {1,2} x logical {0,1}",
+                                 "own_vector_clock_entry": [1, 2], "values": [1, 2],
+                                 "arrival_orders": "all permutations, folded pairwise as a leader does",
+                                 "role": "auxiliary lemma (argument-order independence) of the convergence clause; the "
+                                         "deciding check is the replica-level 'multileader' driver"})
+    seen = set()
+    for res_name in RESOLVERS:
+        for kind in ("float", "hlc"):
+            for case in resolver_cases(kind):
+                winners, calls = check_resolver_case(res_name, case)
+                d.executions += 1
+                d.transitions += calls
+                seen |= winners
+                tie = len({repr(c[1]) for c in case}) < len(case)
+                if tie:
+                    d.nontrivial += 1
+                if len(winners) > 1:
+                    fp = (f"Resolver/{res_name}/depends-on-arrival-order/"
+                          f"{'pair' if len(case) == 2 else 'triple'}-{kind}-{'tied' if tie else 'distinct'}-timestamps")
+                    run.violation(fp, f"{res_name}: concurrent versions {case} (writer, timestamp, own clock, value) "
+                                      f"resolve to different winners depending on which one a leader already holds: "
+                                      f"{sorted(winners)}",
+                                  {"driver": "resolvers", "scheme": "resolver", "cfg": {"resolver": res_name},
+                                   "input": [list(c) for c in case]})
+                if len(d.samples) < 2 and tie:
+                    d.samples.append({"resolver": res_name, "versions": case, "winners": sorted(winners)})
+    d.states = d.outcomes = len(seen)
+    d.wall_s = time.time() - t0
+
+
 def main(tier, seed, only=None):
     run = Run(PID, tier, seed, "model_checking",
               rule=("one execution = one configuration x one write sequence x one complete assignment of per-message "
@@ -1009,7 +1136,10 @@ def main(tier, seed, only=None):
                            "resolved in the library's favour)",
                            "multi-leader convergence is judged only when the harness-fired anti-entropy exchanges let "
                            "every leader learn from every other one (push-pull information flow)",
-                           "chain reads go to every node only with CRAQ enabled (documented usage: tail reads otherwise)"])
+                           "chain reads go to every node only with CRAQ enabled (documented usage: tail reads otherwise)",
+                           "resolvers that take a user function get 'highest value wins, ties by writer id': a symmetric "
+                           "total order that extends causality (values grow in issue order), so convergence stays the "
+                           "library's responsibility"])
     plans = plan(tier)
     for name, (bounds, jobs) in plans.items():
         if only and name not in only:
@@ -1017,6 +1147,8 @@ def main(tier, seed, only=None):
         run_driver(run, name, bounds, jobs, seed)
     if not only or "rstore" in only:
         run_rstore(run, tier, seed)
+    if not only or "resolvers" in only:
+        run_resolvers(run)
     return run.finish()
 
 
@@ -1037,6 +1169,23 @@ def replay(data):
     want = data.get("fingerprint")
     print(f"scheme={scheme} cfg={cfg}")
     print(f"input={inp}")
+    if scheme == "resolver":
+        case = tuple(tuple(tuple(f) if isinstance(f, list) else f for f in c) for c in inp)
+        hit = False
+        for perm in itertools.permutations(range(len(case))):
+            r_ = RESOLVERS[cfg["resolver"]]()
+            held = _mk_version(case[perm[0]])
+            for i in perm[1:]:
+                inc = _mk_version(case[i])
+                win = r_.resolve("k", [held, inc])
+                print(f"  order {perm}: holds {held.writer_id}:{held.value}@{held.timestamp}, receives "
+                      f"{inc.writer_id}:{inc.value}@{inc.timestamp} -> keeps {win.writer_id}:{win.value}")
+                held = win
+        winners, _c = check_resolver_case(cfg["resolver"], case)
+        if len(winners) > 1:
+            print(f"  !! winners differ by arrival order: {sorted(winners)}")
+            hit = True
+        return 1 if hit else 0
     if scheme == "rs":
         inp = [tuple(x) for x in inp]
         w, r, viol = run_rs(cfg, inp)
